@@ -71,18 +71,18 @@ PROPS = {
         technique="Lean 4 proof (induction over the plan) + fault-injection correspondence on the real archive file",
     ),
     "C04": dict(
-        modules=["Copia.Props.C04"], namespaces=["Copia.C04"], runner="bb", bb_module="bb_oneway",
+        modules=["Copia.Props.C04", "Copia.Props.C04b"], namespaces=["Copia.C04"], runner="bb", bb_module="bb_oneway",
         assumptions=_OW_ASSUME, trusted_base=_OW_TB + ["bash's ANSI-C quoting ($'…') as modelled by Quote.ansiC: named escapes decoded, unknown escapes kept, numeric/control escapes outside the model (never produced by the escaping chain — proved); cross-checked against the installed bash on every run"],
         level_text="Kernel-checked theorems for ALL trees/flags over the run model: destination after a run = (deleted if in delete; source entry with the source's whole-second mtime if in transfer; untouched otherwise), "
                    "nothing outside the plan is touched — also when ANY subset of the transfers and deletes fails (`partial_failure_stays_in_plan`: the non-zero-exit clause) —, an empty source without --delete is a no-op, and ORDER INDEPENDENCE: any completion order of the parallel transfers/deletes gives the same destination. "
                    "With C19's theorems the plan itself is the set definition. QUOTING: `quoted_path_decodes` / `quoted_staging_decodes` — for EVERY remote path string (quotes, backslashes, newlines, $, ;, backticks) bash's ANSI-C scanner decodes the `$'…'` word the sources build "
-                   "(escaping chain regenerated from the four source files, which must agree) back to exactly the path and stops at the closing quote; the model scanner and `escape` are cross-checked against the installed bash. Tie: real `copia sync -r` in all three directions (SSH stand-in) on trees with hostile names, every per-file destination state, flag sets incl. --jobs; "
+                   "(escaping chain regenerated from the four source files, which must agree) back to exactly the path and stops at the closing quote; the model scanner and `escape` are cross-checked against the installed bash. ARGUMENT PARSING: `location_remote` / `location_remote_only` / `location_local_is_the_argument` characterise `FileLocation::parse` (which SRC/DST strings are `host:path`), compared with the real CLI through the ssh stand-in's log. Tie: real `copia sync -r` in all three directions (SSH stand-in) on trees with hostile names, every per-file destination state, flag sets incl. --jobs; "
                    "predicted destination (bytes, whole-second mtime, untouched sub-second parts) and printed plan compared; oracles: source unchanged, no staging file left.",
         level_note="Model-level proof + black-box tie; the remote shell commands (cat/mv/touch/find/xargs) and tokio scheduling are trusted/abstracted (any order is proved equivalent). Non-zero exits are counted, their partial effects are not compared.",
         technique="Lean 4 proof (lookup characterisation of folds, permutation invariance) + black-box correspondence in three directions",
     ),
     "C13": dict(
-        modules=["Copia.Props.C13"], namespaces=["Copia.C13"], runner="bb", bb_module="bb_hubsync",
+        modules=["Copia.Props.C13", "Copia.Props.C13b"], namespaces=["Copia.C13"], runner="bb", bb_module="bb_hubsync",
         assumptions=_HUB_ASSUME + ["the hub side is the sequential CAS-Put semantics (its atomicity under concurrency is C03); local trees without a top-level `.copia` directory",
                                    "interference is modelled per Put (stale `expected`); an environment that deletes files is outside 'still retrievable'"],
         trusted_base=_HUB_TB + ["tools/sshstub/ssh and tools/sshrelay (pausing relay) as SSH stand-ins"],
